@@ -72,7 +72,15 @@ func buildRunnerOverrides(e *Env) *overrides {
 	return o
 }
 
-func depIs(d wiring.Dep, kind, name string) bool { return d.Kind == kind && d.Name == name }
+// currentGM: the wiring model of the run (set by Env.models), so that rules can name services by role.
+var currentGM *wiring.GoModel
+
+func depIs(d wiring.Dep, kind, name string) bool {
+	if kind == "service" && currentGM != nil {
+		name = currentGM.RoleID(name)
+	}
+	return d.Kind == kind && d.Name == name
+}
 
 func ctorIs(e *Env, s *wiring.Service, rel, name string) bool {
 	return s != nil && s.CtorKind == "func" && s.CtorObj != nil && s.CtorObj.Name() == name && objPkgPath(s.CtorObj) == e.P.ModPath+"/"+rel
